@@ -10,6 +10,7 @@ type sandboxCtxKey int
 
 const (
 	stdlibInEffectKey sandboxCtxKey = iota
+	sandboxedKey
 )
 
 // withStdlibInEffect records the `//` binding that the source being compiled and evaluated was
@@ -26,4 +27,16 @@ func baseScope(ctx context.Context) rel.Scope {
 		return rel.EmptyScope.With("//", stdlib)
 	}
 	return rel.EmptyScope
+}
+
+// withSandbox marks ctx as evaluating source that may only reach the scope and library it was
+// given (//eval.eval, //eval.evaluator, //eval.value).
+func withSandbox(ctx context.Context) context.Context {
+	return context.WithValue(ctx, sandboxedKey, true)
+}
+
+// isSandboxed reports whether the source being compiled runs inside a sandbox.
+func isSandboxed(ctx context.Context) bool {
+	on, _ := ctx.Value(sandboxedKey).(bool)
+	return on
 }
